@@ -22,4 +22,8 @@ def run(prog: Program, res: Result, tier: str) -> None:
     iso.check_side(prog, res)
     iso.check_mirror(prog, res)
     iso.check_feasibility(prog, res)
+    iso.check_both_sides(prog, res)
+    iso.check_revert(prog, res)
+    iso.check_stereo_index(prog, res)
+    iso.check_prechecks(prog, res)
     iso.check_label_type(prog, res)
